@@ -317,6 +317,9 @@ func c05Preamble(r *rand.Rand, class string, id int) []byte {
 		return append([]byte{0x00, byte(r.IntN(12))}, c05RandBytes(r, 5+r.IntN(60))...)
 	case "big-len":
 		return []byte("SSH-2.0-OpenSSH_9.6 c05\r\n")
+	case "max-len":
+		// a binary protocol whose first two bytes read as the largest DNS-over-TCP frame lengths
+		return append([]byte{0xff, byte(0xfd + r.IntN(3))}, c05RandBytes(r, 10+r.IntN(200))...)
 	case "bad-parse":
 		n := 20 + r.IntN(100)
 		b := c05RandBytes(r, n)
@@ -407,6 +410,9 @@ func c05GenCase(r *rand.Rand, id int, budget *int64) *c05Case {
 		cs.DstPort = c05Pick[uint16](r, 80, 443, 8443, 5222)
 	case "dns53":
 		cs.Pre = c05Pick(r, "short-len", "big-len", "bad-parse", "partial-frame", "dns-response", "none")
+		if rand.New(rand.NewPCG(cs.CaseSeed, 0x3A71)).IntN(6) == 0 {
+			cs.Pre = "max-len"
+		}
 		cs.DstPort = 53
 	}
 	cs.C2S = c05Size(r, budget)
